@@ -253,6 +253,13 @@ def media_recvMessageStanza(self: Obj("YowMediaProtocolLayer"), node: Obj("Proto
     ensures(implies(attr(node, "type") == "media" and known_mediatype(node), up_once(node)))
     # a media type the library cannot present: one receipt instead of an entity (C07)
     ensures(implies(attr(node, "type") == "media" and not known_mediatype(node), n_events("toUpper") == 0 and n_events("toLower") == 1))
+    # ... and that receipt is the (read) acknowledgement of the entity parsed from THIS stanza, serialised - nothing else
+    ensures(implies(attr(node, "type") == "media" and not known_mediatype(node),
+                    n_events("entity.fromNode") == 1 and same_obj(event_arg("entity.fromNode", 0, 0), node)
+                    and n_events("entity.ack") == 1 and same_obj(event_arg("entity.ack", 0, 0), event_result("entity.fromNode", 0))
+                    and event_arg("entity.ack", 0, 1) == True
+                    and n_events("entity.toProtocolTreeNode") == 1 and same_obj(event_arg("entity.toProtocolTreeNode", 0, 0), event_result("entity.ack", 0))
+                    and same_obj(event_arg("toLower", 0), event_result("entity.toProtocolTreeNode", 0))))
     propagates("*")
 
 
